@@ -163,10 +163,11 @@ pub struct RelExp {
 pub enum ItemExp { Entry(Vec<RelExp>), Substvar(String) }
 
 // (two names that differ where '+' and '-' sort differently under byte order and under "split at dashes" orders)
-const NAMES: &[&str] = &["libfoo2.0-dev", "a", "g++", "x~y", "python3-dulwich", "c-ares", "zlib1g", "c+tools"];
+const NAMES: &[&str] = &["libfoo2.0-dev", "a", "g++", "x~y", "python3-dulwich", "c-ares", "zlib1g", "c+tools", "a-b", "a1"];
 const AQS: &[&str] = &["any", "native", "amd64"];
 /// two version chains in increasing Debian order (Policy 5.6.12)
-pub const VERS: [&[&str]; 2] = [&["1.0~rc1", "1.0", "1.0-1", "1.0-1+b1", "1.1", "2"], &["0.9~~", "0.9~", "0.9", "0.9+dfsg-1", "0.10", "1"]];
+// (ranks 0..5 are the ordered chains of C12; the entries after them - hyphens inside the upstream part - are used by the generated fields only)
+pub const VERS: [&[&str]; 2] = [&["1.0~rc1", "1.0", "1.0-1", "1.0-1+b1", "1.1", "2", "1.0-rc1-2"], &["0.9~~", "0.9~", "0.9", "0.9+dfsg-1", "0.10", "1", "0.9.8-beta-1~bpo1"]];
 const ARCHS: &[&str] = &["amd64", "i386", "linux-any", "hurd-i386"];
 const PROFS: &[&str] = &["nocheck", "stage1", "cross", "pkg.foo.bar"];
 
@@ -196,7 +197,7 @@ pub fn concretise_field(case: &Value, map: usize) -> (String, Vec<String>) {
                     let is_epoch_part = *n == 1 && kinds.get(i + 1) == Some(&"COLON") && roles[i + 1][0] == "ver";
                     if is_epoch_part { ["1", "10", "2"][map % 3].to_string() } else { VERS[map % 2][(e as usize + r as usize) % VERS[map % 2].len()].to_string() }
                 }
-                "arch" => { arch_n += 1; ARCHS[(arch_n + map) % ARCHS.len()].to_string() }
+                "arch" => { arch_n += 1; if map == 2 { ARCHS[arch_n % 2].to_string() } else { ARCHS[(arch_n + map) % ARCHS.len()].to_string() } }   // (map 2: repeated architectures)
                 "prof" => { prof_n += 1; PROFS[(prof_n + map) % PROFS.len()].to_string() }
                 "sv" => { sv_n += 1; if sv_n % 2 == 1 { "misc".to_string() } else { "Depends".to_string() } }
                 _ => "x".to_string(),
@@ -254,7 +255,14 @@ pub fn doc_features(case: &Value) -> Vec<String> {
 pub fn lossless_rel(r: &Relation) -> Result<RelExp, String> {
     let name = guarded("Relation::name", || r.name())?;
     let aq = guarded("Relation::archqual", || r.archqual())?;
-    let version = guarded("Relation::version", || r.version().map(|(vc, v)| (vc.to_string(), v.to_string())))?;
+    let version = guarded("Relation::version", || r.version().map(|(vc, v)| {
+        // the Version handed out must be the one its own text denotes (epoch / upstream part / revision split as debversion does)
+        let again: Result<debversion::Version, _> = v.to_string().parse();
+        let consistent = match &again { Ok(w) => w.epoch == v.epoch && w.upstream_version == v.upstream_version && w.debian_revision == v.debian_revision, Err(_) => false };
+        (vc.to_string(), v.to_string(), consistent, format!("{:?}", v))
+    }))?;
+    if let Some((_, t, false, dbg)) = &version { return Err(format!("Relation::version() returned {} for the text {:?}: not the version that text denotes", dbg, t)); }
+    let version = version.map(|(a, b, _, _)| (a, b));
     let archs = guarded("Relation::architectures", || r.architectures().map(|a| a.collect::<Vec<_>>()))?;
     let profs = guarded("Relation::profiles", || r.profiles().map(|g| g.into_iter().map(|p| match p {
         debian_control::relations::BuildProfile::Enabled(s) => (false, s),
